@@ -265,6 +265,13 @@ def check(case, ctx):
         cc.graph.add_node("zz_phantom.a", type="bb_input", output=False)
         ctx.count("copy_edited_before_call")
     ok, r = ctx.call(cg.tx.sequential_unroll, c, n, D, Q, **kw)
+    # the cell definitions are shared by every instance and every later call: an unroll must not edit them
+    try:
+        G._check_registry(c, cd)
+        ctx.count("cmp:cell_definitions_unchanged")
+    except G.Misbehaved as e:
+        ctx.violation("cell_definition_changed_by_unroll", f"{what}: {e.detail}")
+        return
     if ok and isinstance(iv, dict) and iv:
         # the same initial_values object used for a second call (callers sweep n with one dict)
         ctx.count("iv_dict_reused")
